@@ -670,12 +670,14 @@ func c16R2(c *core.Ctx) {
 			if !ok || ia.X != f.Params[0] {
 				return
 			}
-			vals := []ssa.Value{eng.StripConv(st.Val)}
-			if phi, isPhi := vals[0].(*ssa.Phi); isPhi {
-				vals = phi.Edges
+			var cases [][]eng.Bit
+			if phi, isPhi := eng.StripConv(st.Val).(*ssa.Phi); isPhi {
+				cases = ev.PhiCases(phi)
+			} else {
+				cases = [][]eng.Bit{ev.Bits(eng.StripConv(st.Val))}
 			}
-			for _, v := range vals {
-				s := eng.BitsString(ev.Bits(v))
+			for _, bits := range cases {
+				s := eng.BitsString(bits)
 				if s == strings.Join(mqttFixedHeader, " ") {
 					full = true
 				}
@@ -835,19 +837,53 @@ func c16R4(c *core.Ctx) {
 			}
 		}
 		c.Check(okMul, rule, "decodeHeader:multiplier *= 128 from 1", f.Pos(), "the multiplier starts at 1 and grows by 128 per digit", "decodeHeader's multiplier is not 1, 128, 128², …")
+		// another digit is read exactly when bit 7 of the digit just accumulated is set: from the
+		// accumulation, the next ReadByte lies behind (digit&128)!=0 and the successful return
+		// behind (digit&128)==0, however the loop is spelled
 		okCont := false
-		if cont != nil {
-			for _, b := range f.Blocks {
-				if len(b.Instrs) == 0 {
-					continue
+		_ = cont
+		var acc ssa.Instruction
+		if low != nil {
+			eng.Instrs(f, func(in ssa.Instruction) {
+				if bo, ok := in.(*ssa.BinOp); ok && bo.Op == token.MUL && (eng.StripConv(bo.X) == ssa.Value(low) || eng.StripConv(bo.Y) == ssa.Value(low)) {
+					acc = bo
 				}
-				if ifi, ok := b.Instrs[len(b.Instrs)-1].(*ssa.If); ok {
-					a := eng.Normalize(ifi.Cond)
-					if a.Op == token.EQL && a.Neg && (a.X == ssa.Value(cont) || a.Y == ssa.Value(cont)) && eng.InLoop(ifi) {
-						okCont = true
+			})
+		}
+		if acc != nil {
+			digit := eng.StripConv(low.X)
+			isCont := func(x ssa.Value) bool {
+				bo, ok := eng.StripConv(x).(*ssa.BinOp)
+				if !ok || bo.Op != token.AND {
+					return false
+				}
+				if k, isC := eng.ConstInt(bo.Y); !isC || k != 128 {
+					return false
+				}
+				o := eng.StripConv(bo.X)
+				if o == digit {
+					return true
+				}
+				if phi, isPhi := o.(*ssa.Phi); isPhi {
+					for _, e := range phi.Edges {
+						if eng.StripConv(e) == digit {
+							return true
+						}
 					}
 				}
+				if phi, isPhi := digit.(*ssa.Phi); isPhi { // digit itself is the loop-carried value
+					return o == ssa.Value(phi)
+				}
+				return false
 			}
+			more := eng.NonZeroPred("(digit&128)!=0", true, isCont)
+			last := eng.ZeroPred("(digit&128)==0", true, isCont)
+			g1 := eng.GuardedBetween(acc, func(i ssa.Instruction) bool { return isCallNamed(i, "ReadByte") }, more)
+			g2 := eng.GuardedBetween(acc, func(i ssa.Instruction) bool {
+				ret, ok := i.(*ssa.Return)
+				return ok && len(ret.Results) == 4 && eng.IsNilConst(ret.Results[3])
+			}, last)
+			okCont = g1.Guarded && g1.Edges > 0 && g2.Guarded && g2.Edges > 0 && eng.InLoop(acc)
 		}
 		c.Check(okCont, rule, "decodeHeader:loop while continuation bit", f.Pos(), "digits are read while bit 7 is set", "decodeHeader's length loop is not `while (digit & 128) != 0`")
 	}
